@@ -99,6 +99,7 @@ func configRun(args []string) error {
 	n := fs.Int("n", 50, "histories")
 	length := fs.Int("len", 8, "calls per history")
 	replay := fs.String("replay", "", "replay file")
+	scripts := fs.String("scripts", "", "scripts exported by TLC from Config.tla (ndjson, calls only)")
 	fs.Parse(args)
 	w, err := newNDWriter(*out)
 	if err != nil {
@@ -215,6 +216,30 @@ func configRun(args []string) error {
 	}
 	if *replay != "" {
 		return readND(*replay, func(ev map[string]any) error { exec(ev); return nil })
+	}
+	if *scripts != "" {
+		// behaviours of the specification: the options of a constructor call are given in sorted order
+		err := readND(*scripts, func(ev map[string]any) error {
+			if str(ev, "op") == "End" {
+				return nil
+			}
+			if opts := obj(ev, "opts"); opts != nil || str(ev, "op") == "NewWriter" {
+				order := []string{}
+				for k := range opts {
+					order = append(order, k)
+				}
+				sortStrings(order)
+				ev["order"] = order
+				if opts == nil {
+					ev["opts"] = map[string]any{}
+				}
+			}
+			exec(ev)
+			return nil
+		})
+		if err != nil {
+			return err
+		}
 	}
 	r := rand.New(rand.NewSource(*seed))
 	subset := func(vals map[string][]string) (map[string]any, []string) {
